@@ -292,7 +292,7 @@ m = {
              'Every run is bounded (VERIF_MAX_SECONDS, default 900 quick / 14400 thorough; VERIF_MAX_MEM_GB, default 6 / 24): a tree on '
              'which a symbolic evaluation explodes ends as ANALYSIS-ERROR. C05/C13/C14/C15/C16/C17/C19/C20 additionally share the memo '
              'detector (<ID>-MEMO, sa/memo.py): no function of their scope returns a result remembered from an earlier call under an '
-             'incomplete key. Regression corpora: seeded/ (240 breaking changes, all caught) and benign/ (240 behaviour-preserving '
+             'incomplete key. Regression corpora: seeded/ (270 breaking changes, all caught) and benign/ (240 behaviour-preserving '
              'refactorings, all silent); tools/regress.sh re-runs them. VERIF_EVIDENCE_DIR redirects the evidence of such sweeps.',
     'not_applicable': na,
 }
